@@ -206,12 +206,12 @@ func boundaryTrees() []*node {
 	sharedArr := arr(&node{k: 'i', i: 1}, null)
 	sharedEmpty := empO()
 	return []*node{
-		arr(obj("b", null), empO()),                           // the design-time witness
-		obj("a", arr(obj("b", null))),                         // null below slice below object
-		obj("a", obj("b", null)),                              // null not below a slice
-		arr(arr(obj("a", null, "b", &node{k: 'i', i: 0}))),    // deeper
-		arr(empA(), empO(), arr(empA()), obj("a", empO())),    // nested empty containers
-		arr(null, null), obj("a", null, "b", null),            // nulls only
+		arr(obj("b", null), empO()),                        // the design-time witness
+		obj("a", arr(obj("b", null))),                      // null below slice below object
+		obj("a", obj("b", null)),                           // null not below a slice
+		arr(arr(obj("a", null, "b", &node{k: 'i', i: 0}))), // deeper
+		arr(empA(), empO(), arr(empA()), obj("a", empO())), // nested empty containers
+		arr(null, null), obj("a", null, "b", null),         // nulls only
 		arr(sharedMap, sharedMap), obj("a", sharedArr, "b", sharedArr), // shared cells
 		arr(sharedEmpty, sharedEmpty),
 		{k: 'a', kids: []*node{{k: 'i', i: 1}}, extraCap: 3},
